@@ -2,6 +2,7 @@
 from ..paths import PathEnumerator
 from ..guards import fv
 from ..terms import TermBuilder, fmt, mk, const, subterms, elem_of, linear_eq
+from ..terms import callee_is as _nm
 from ..guards import atomic_facts, int_bounds
 from ..intervals import float_facts_to_env
 from .common import SELF, self_field
@@ -155,7 +156,7 @@ def run(ctx):
                 probs.append("table filtered on a path where n % width == 0 does not hold")
             for e in stores:
                 v = e["value"]
-                okv = v[0] == "call" and v[1].endswith("collect") and v[2][0][0] == "filter" and v[2][0][1] == ("call", "std::collections::HashMap::drain", (("field", selfp, "known"),))
+                okv = v[0] == "call" and _nm(v[1], "collect") and v[2][0][0] == "filter" and v[2][0][1] == ("call", "std::collections::HashMap::drain", (("field", selfp, "known"),))
                 if okv:
                     pred = elem_of(("map", ("dummy",), v[2][0][2]))  # apply closure to elem(dummy)
                     x = ("elem", ("dummy",))
@@ -183,7 +184,7 @@ def run(ctx):
         item = elem_of(("map", ("dummy",), r[2]))
         okq = pred == mk("Le", bound, ("field", ("tfield", x, 1), "f")) and item == ("tfield", x, 0)
         desc = "filter %s map %s" % (fmt(pred), fmt(item))
-    if not okq and r[0] == "call" and r[1].endswith("Iterator::filter_map") and len(r[2]) == 2 and r[2][0] == ("field", selfp, "known") and r[2][1][0] == "closure":
+    if not okq and r[0] == "call" and _nm(r[1], "Iterator::filter_map") and len(r[2]) == 2 and r[2][0] == ("field", selfp, "known") and r[2][1][0] == "closure":
         # known.iter().filter_map(|(k, v)| if pred { Some(k) } else { None })
         cf = prog.fn(r[2][1][1])
         x = ("elem", ("dummy",))
